@@ -29,6 +29,8 @@ def run(ck):
         ck.guard("C09-R4", r4_index_entry, ck, F)
         ck.guard("C09-R5", r5_endian, ck, F)
         ck.guard("C09-R6", r6_codec_ids, ck, F)
+        # ... and each id selects the encoder / decoder family of that codec on both sides (shared with C01-R3)
+        ck.guard("C09-R6", r3_codec_table, ck, F, "C09-R6")
         # index levels map the last key of each child to the child's offset; trailer last (shared)
         ck.guard("C09-R8", r4_index_pair, ck, F, "C09-R8")
         ck.guard("C09-R8", r1_lastkey, ck, F, "C09-R8")
@@ -155,23 +157,27 @@ def r7_xver(ck):
 
 
 def xver_codec_helpers(ck, F, G, R):
-    """codec helpers both versions support use the codec crate's API the same way (same external
-    callee sets) as the frozen 0.4.7 sibling — shared with C01-R3"""
-    for stem in ("snappy_pre_05", "snappy", "zlib", "lz4", "zstd"):
-        for side in ("compress", "decompress"):
-            p = f"compression::{stem}_{side}"
-            if F.has_body(p) and G.has_body(p):
-                CODEC = ("snap::", "flate2::", "lz4_flex::", "zstd::", "<snap::", "<flate2::", "<lz4_flex::", "<zstd::")
-                iscodec = lambda n: n.startswith(CODEC) or any(("<" + c) in n or (" " + c) in n for c in CODEC[:4])
-                # only the calls into the codec crate are compared (which encoder / decoder, raw or framed, which
-                # entry points): buffer management around them is not part of the format
-                ca = sorted({callee_name(c) for s, c, t in F.body(p).calls() if c and not c["local"] and iscodec(callee_name(c))})
-                cb = sorted({callee_name(c) for s, c, t in G.body(p).calls() if c and not c["local"] and iscodec(callee_name(c))})
-                if not ca and not cb:
-                    continue
-                if not cb:
-                    continue  # feature compiled out in the sibling build: nothing to compare with
-                ck.ob(R, f"codec-helper-equal-0.4.7/{stem}_{side}", ca == cb, f"{p} uses the same external calls as in grenad 0.4.7" + ("" if ca == cb else f" — tree only: {sorted(set(ca) - set(cb))}; 0.4.7 only: {sorted(set(cb) - set(ca))}"), F.body(p), config="default+v047")
+    """every codec id both versions support selects the same external encoder / decoder entry points as in the frozen
+    0.4.7 sibling: what each arm of compress / decompress reaches in the codec crates, through the per-codec helpers
+    or with them spliced in (which encoder / decoder, raw or framed; buffer management around them is not part of
+    the format) — shared with C01-R3"""
+    from .c01 import dispatch_table, _codec_calls
+    tabs = {}
+    for nm, X in (("tree", F), ("0.4.7", G)):
+        comp, deco = X.body(A("compress")), X.body(A("decompress"))
+        _, _, tc = dispatch_table(comp, comp.arg_name(1))
+        _, _, td = dispatch_table(deco, deco.arg_name(1))
+        tabs[nm] = {("compress", v): _codec_calls(X, comp, lst)[0] for v, lst in tc.items()}
+        tabs[nm].update({("decompress", v): _codec_calls(X, deco, lst)[0] for v, lst in td.items()})
+    n = 0
+    for key in sorted(tabs["0.4.7"]):
+        cb = sorted(tabs["0.4.7"][key])
+        if not cb or key not in tabs["tree"]:
+            continue  # identity arm / feature compiled out in the sibling build: nothing to compare with
+        ca = sorted(tabs["tree"][key])
+        n += 1
+        ck.ob(R, f"codec-arm-equal-0.4.7/{key[1]}_{key[0]}", ca == cb, f"{key[0]} arm {key[1]} reaches the same codec-crate entry points as in grenad 0.4.7" + ("" if ca == cb else f" — tree only: {sorted(set(ca) - set(cb))}; 0.4.7 only: {sorted(set(cb) - set(ca))}"), F.body(A(key[0])), config="default+v047")
+    ck.floor(R, "codec arms compared with 0.4.7", n, 4, "default+v047")
 
 
 def tup_json(x):
